@@ -111,10 +111,92 @@ theorem reach_monotone (P : Prims) (keypairs sks sks' : List Bytes) (cfg : Confi
     obtain ⟨sk, hsk, hpub⟩ := hk2
     exact ⟨sk, hsub sk hsk, hpub⟩
 
+/-! ### key objects that only REPORT a recipient's public key
+
+`crypto.UnmarshalEd25519PrivateKey` accepts a 64-byte key whose second half is any public key, so
+an offered key object can claim a recipient's keypair without being able to decrypt anything
+sealed to it (`Prims.genuine sk = false`; law `PrimsLaw.shadow_fails`). "The grants those keys can
+decrypt" (`canOpen`) counts genuine keys only, and `unlock_exact` above holds for offers that mix
+genuine keys, unrelated keys and such shadow keys in any order: `UnlockEnvelope` (as fixed) tries
+every offered key that reports a keypair's PEM. Before the fix the first such key took the slot. -/
+
+/-- what the offered keys can reach does not depend on the shadow keys among them -/
+theorem canOpen_filter_genuine (P : Prims) (keypairs sks : List Bytes) :
+    canOpen P keypairs (sks.filter P.genuine) = canOpen P keypairs sks := by
+  funext idxs
+  unfold canOpen
+  congr 1
+  funext k
+  split
+  · rfl
+  · rw [List.any_filter]
+    congr 1
+    funext sk
+    cases P.genuine sk <;> simp
+
+section
+variable {K : Type} [Field K] [DecidableEq K] (dec : Bytes → Option K) (enc : K → Bytes)
+variable (P : Prims)
+variable (secret : K) (coeff : Nat → K) (nonce ctx payload : Bytes) (keypairs : List Bytes)
+variable (cfg : Config) (env : Envelope)
+
+/-- **Shadow keys are ignored**: unsealing with any list of offered keys gives exactly the outcome
+of unsealing with the genuine keys among them — wherever the shadow keys stand in the list. -/
+theorem shadow_keys_ignored (hP : PrimsLaw P) (hS : FieldSetting dec enc (buildTotal keypairs.length cfg))
+    (hb : build P (fieldScalars K dec enc) secret coeff nonce ctx payload keypairs cfg = .ok env)
+    (hn : nonce.length = 24) (hw : cfg.totalShares < 2 ^ 32 ∧ cfg.grants.length ≤ 2 ^ 32) (sks : List Bytes) :
+    unlock P (fieldScalars K dec enc) ctx env sks =
+      unlock P (fieldScalars K dec enc) ctx env (sks.filter P.genuine) := by
+  rw [unlock_exact dec enc P secret coeff nonce ctx payload keypairs cfg env hP hS hb hn hw sks,
+    unlock_exact dec enc P secret coeff nonce ctx payload keypairs cfg env hP hS hb hn hw (sks.filter P.genuine),
+    canOpen_filter_genuine]
+
+end
+
+/-- the 2-of-3 configuration of the examples: key 1 alone reaches two shares -/
+def exCfg : Config := { threshold := 1, grants := [⟨1, [0]⟩, ⟨2, [1]⟩] }
+
+/-- sealed with the toy primitives that have shadow keys, recipients `[10, 0]` and `[11, 0]` -/
+def shadowBuild : Outcome Envelope :=
+  build shadowPrims z251 5 (fun i => (i : ZMod 251) + 3) (List.replicate 24 9) [1] [2, 3] [[10, 0], [11, 0]] exCfg
+
+/-- the offer of the witness: a shadow of recipient 1 (`[11, 0, 9]` reports the public key
+`[11, 0]`), then the genuine key of recipient 1 -/
+def shadowOffer : List Bytes := [[11, 0, 9], [11, 0]]
+
+/-- the pre-fix matching on the witness: slot 1 is bound to the shadow key, nothing is reached -/
+def firstMatchLocked : Bool :=
+  match shadowBuild with
+  | .ok env => decide (unlockFirstMatch shadowPrims z251 [1] env shadowOffer =
+      .locked { success := false, sharesAvailable := 0, sharesNeeded := 2, unlockedGrantIndexes := [] })
+  | _ => false
+
+set_option maxRecDepth 100000 in
+theorem firstMatchLocked_true : firstMatchLocked = true := by decide
+
+/-- **Refuted for the code before the fix** (first key reporting a keypair's PEM takes the slot):
+"unsealing succeeds exactly when the offered keys reach threshold+1 shares" fails for the offer
+`shadowOffer` — the genuine key of recipient 1 is offered and reaches 2 = threshold+1 shares, yet
+the envelope stays locked. The engine replays this offer shape on the real code every run. -/
+theorem first_match_exact_false :
+    ¬ ∀ (env : Envelope) (sks : List Bytes), shadowBuild = .ok env →
+      ((∃ p r, unlockFirstMatch shadowPrims z251 [1] env sks = .opened p r) ↔
+        exCfg.threshold + 1 ≤ reachCount (canOpen shadowPrims [[10, 0], [11, 0]] sks) exCfg.grants (buildTotal 2 exCfg)) := by
+  intro h
+  have hl := firstMatchLocked_true
+  unfold firstMatchLocked at hl
+  cases hb : shadowBuild with
+  | err e => rw [hb] at hl; cases hl
+  | panic => rw [hb] at hl; cases hl
+  | ok env =>
+    rw [hb] at hl
+    simp only [decide_eq_true_eq] at hl
+    obtain ⟨p, r, ho⟩ := (h env shadowOffer hb).mpr (by decide)
+    rw [hl] at ho
+    cases ho
+
 /-! Non-vacuity: the hypotheses are satisfiable (toy primitives, ℤ/251) and the theorem fires:
 a 2-of-3 configuration, opened by key 1 alone (2 shares) but not by key 0 alone (1 share). -/
-
-def exCfg : Config := { threshold := 1, grants := [⟨1, [0]⟩, ⟨2, [1]⟩] }
 
 example : ∃ env,
     build toyPrims z251 5 (fun i => (i : ZMod 251) + 3) (List.replicate 24 9) [1] [2, 3] [[10], [11]] exCfg = .ok env ∧
@@ -145,5 +227,43 @@ example : ∃ env,
         (by decide) (by decide) [[10]]]
       rw [if_neg (by decide)]
       exact ⟨_, rfl⟩
+
+/-! Non-vacuity of the shadow-key clause: the laws hold for primitives that HAVE shadow keys
+(`shadowPrims_law`), and on the witness of `first_match_exact_false` the code as fixed opens the
+envelope (shadow first, genuine key second), while the shadow key alone reaches nothing. -/
+
+example : ∃ env, shadowBuild = .ok env ∧
+    (∃ r, unlock shadowPrims z251 [1] env shadowOffer = .opened [2, 3] r) ∧
+    (∃ r, unlock shadowPrims z251 [1] env [[11, 0, 9]] = .locked r) ∧
+    unlock shadowPrims z251 [1] env shadowOffer = unlock shadowPrims z251 [1] env [[11, 0]] := by
+  have exSetting : FieldSetting z251Decode z251Encode (buildTotal 2 exCfg) :=
+    { codec := z251_law
+      ids := by
+        intro i j hi hj h
+        have e : buildTotal 2 exCfg = 3 := by decide
+        rw [e] at hi hj
+        have := (ZMod.natCast_eq_natCast_iff' i j 251).mp h
+        omega }
+  have hok : shadowBuild.isOk = true := by decide
+  cases hb : shadowBuild with
+  | err e => rw [hb] at hok; cases hok
+  | panic => rw [hb] at hok; cases hok
+  | ok env =>
+    have hb' : build shadowPrims (fieldScalars (ZMod 251) z251Decode z251Encode) 5 (fun i => (i : ZMod 251) + 3)
+        (List.replicate 24 9) [1] [2, 3] [[10, 0], [11, 0]] exCfg = .ok env := hb
+    refine ⟨env, rfl, ?_, ?_, ?_⟩
+    · rw [show z251 = fieldScalars (ZMod 251) z251Decode z251Encode from rfl]
+      rw [unlock_exact z251Decode z251Encode shadowPrims 5 _ _ [1] [2, 3] [[10, 0], [11, 0]] exCfg env shadowPrims_law exSetting hb'
+        (by decide) (by decide) shadowOffer]
+      rw [if_pos (by decide)]
+      exact ⟨_, rfl⟩
+    · rw [show z251 = fieldScalars (ZMod 251) z251Decode z251Encode from rfl]
+      rw [unlock_exact z251Decode z251Encode shadowPrims 5 _ _ [1] [2, 3] [[10, 0], [11, 0]] exCfg env shadowPrims_law exSetting hb'
+        (by decide) (by decide) [[11, 0, 9]]]
+      rw [if_neg (by decide)]
+      exact ⟨_, rfl⟩
+    · rw [show z251 = fieldScalars (ZMod 251) z251Decode z251Encode from rfl]
+      exact shadow_keys_ignored z251Decode z251Encode shadowPrims 5 _ _ [1] [2, 3] [[10, 0], [11, 0]] exCfg env
+        shadowPrims_law exSetting hb' (by decide) (by decide) shadowOffer
 
 end Bifrost.Props.C16
